@@ -394,7 +394,7 @@ pub fn build_session(r: &mut Rng, seed: u64, run: u64, plan: &SessionPlan) -> Op
             Some(n) if n == info.idx_line.len() => {}
             other => {
                 if std::env::var("SIM_GEN_DEBUG").is_ok() {
-                    println!("REJECT assemble {:?} vs {}:\n{}\n{:?}\n----", other, info.idx_line.len(), text, crate::driver::preprocess::preprocess(&regex::Regex::new(r";.*\n?").unwrap().replace_all(&text, "\n")).err());
+                    println!("REJECT assemble {:?} vs {}:\n{}\n----", other, info.idx_line.len(), text);
                 }
                 rejects += 1;
                 continue;
